@@ -1,4 +1,348 @@
-//! C13 — only one process at a time has the database open (placeholder until built).
-pub fn worker(_args: &[String]) -> i32 {
-    2
+//! C13 — only one process at a time has the database open.
+
+use super::CheckDef;
+use crate::interp::Failure;
+use crate::panics::catch;
+use crate::runner::*;
+use serde::{Deserialize, Serialize};
+use std::path::{Path, PathBuf};
+use std::process::{Child, Command, Stdio};
+use std::time::{Duration, Instant};
+
+pub fn def() -> CheckDef {
+    CheckDef {
+        meta: CheckMeta {
+            id: "C13",
+            level: "exploration",
+            rule: "orchestrations of 2-3 worker processes on one path (file existing or not yet created); each worker opens the database, reads all marker keys, commits its own marker, holds the database for a generated time and closes. Generated: start order and offsets (0-40 ms), hold times (0-25 ms), and per worker an optional gate at a libc boundary (before open64, after open64 returned, the 1st/2nd write of the creator, fsync, mmap64, close) at which the LD_PRELOAD shim parks the process until the orchestrator releases it; all gate choices x release orders for two processes, sampled for three. A worker that does not reach its gate within a timeout is taken to be waiting for the kernel lock and the orchestrator moves on: timing decides which interleaving is produced, never the verdict. Oracle from CLOCK_MONOTONIC timestamps taken by the workers (open returned / about to close): the intervals are pairwise disjoint; every worker sees the marker of every worker whose interval ended before its own began; every worker exits 0 (an Err or panic from open is a failure to wait). Non-trivial = orchestration in which a second open was issued while another process held the database or was creating it. Distinct = hash of the orchestration.",
+            assumptions: &[
+                "flock itself is a raw syscall invisible to the shim; its effect is observed",
+                "three processes are sampled, not enumerated",
+            ],
+        },
+        shard,
+        nshards: NSHARDS,
+    }
+}
+
+#[derive(Serialize, Deserialize, Clone, Debug, PartialEq, Eq, Hash)]
+pub struct ProcSpec {
+    /// "" = no gate, else "<event>:<n>"
+    pub gate: String,
+    pub hold_ms: u32,
+    pub start_delay_ms: u32,
+}
+
+#[derive(Serialize, Deserialize, Clone, Debug, PartialEq, Eq, Hash)]
+pub struct C13Case {
+    pub file_exists: bool,
+    pub procs: Vec<ProcSpec>,
+    /// order in which gated processes are released (indices into procs)
+    pub release: Vec<usize>,
+}
+
+#[derive(Serialize, Deserialize, Clone, Debug, Default)]
+pub struct ProcReport {
+    pub id: usize,
+    pub t_call: u64,
+    pub t_open: u64,
+    pub t_close: u64,
+    pub seen: Vec<String>,
+    pub err: Option<String>,
+}
+
+fn now_ns() -> u64 {
+    let mut ts = libc::timespec { tv_sec: 0, tv_nsec: 0 };
+    unsafe {
+        libc::clock_gettime(libc::CLOCK_MONOTONIC, &mut ts);
+    }
+    ts.tv_sec as u64 * 1_000_000_000 + ts.tv_nsec as u64
+}
+
+/// Worker side: `jv worker proc <db> <id> <hold_ms> <out.json>`
+pub fn worker(args: &[String]) -> i32 {
+    if args.len() < 5 {
+        return 2;
+    }
+    let db_path = PathBuf::from(&args[1]);
+    let id: usize = args[2].parse().unwrap_or(0);
+    let hold: u64 = args[3].parse().unwrap_or(0);
+    let out = &args[4];
+    let mut rep = ProcReport { id, ..Default::default() };
+    rep.t_call = now_ns();
+    let r = catch(|| -> Result<(), String> {
+        let db = jammdb::OpenOptions::new().pagesize(1024).num_pages(16).open(&db_path).map_err(|e| format!("open: {}", e))?;
+        rep.t_open = now_ns();
+        {
+            let tx = db.tx(true).map_err(|e| e.to_string())?;
+            {
+                let b = tx.get_or_create_bucket("m").map_err(|e| e.to_string())?;
+                for kv in b.kv_pairs() {
+                    rep.seen.push(String::from_utf8_lossy(kv.key()).to_string());
+                }
+                b.put(format!("p{}", id), "x").map_err(|e| e.to_string())?;
+            }
+            tx.commit().map_err(|e| format!("commit: {}", e))?;
+        }
+        std::thread::sleep(Duration::from_millis(hold));
+        rep.t_close = now_ns();
+        drop(db);
+        Ok(())
+    });
+    match r {
+        Err(p) => rep.err = Some(format!("panic: {} @ {}", p.msg, p.location)),
+        Ok(Err(e)) => rep.err = Some(e),
+        Ok(Ok(())) => {}
+    }
+    let _ = std::fs::write(out, serde_json::to_string(&rep).unwrap_or_default());
+    if rep.err.is_some() {
+        3
+    } else {
+        0
+    }
+}
+
+pub struct Orchestration {
+    pub reports: Vec<Option<ProcReport>>,
+    pub exit: Vec<Option<i32>>,
+    pub contended: bool,
+}
+
+pub fn run_case(case: &C13Case, dir: &Path) -> Result<Orchestration, Failure> {
+    let db = dir.join("p.db");
+    let _ = std::fs::remove_file(&db);
+    if case.file_exists {
+        catch(|| jammdb::OpenOptions::new().pagesize(1024).num_pages(16).open(&db).map(|_| ()))
+            .map_err(Failure::from_panic)?
+            .map_err(|e| Failure::new("harness_panic", format!("cannot create file: {}", e)))?;
+    }
+    let shim = super::c02::shim_path();
+    if !shim.exists() {
+        return Err(Failure::new("harness_panic", format!("{} missing (run setup)", shim.display())));
+    }
+    let n = case.procs.len();
+    let mut children: Vec<Option<Child>> = Vec::new();
+    let mut gate_dirs: Vec<Option<PathBuf>> = Vec::new();
+    let mut outs: Vec<PathBuf> = Vec::new();
+    let mut contended = false;
+    for (i, p) in case.procs.iter().enumerate() {
+        std::thread::sleep(Duration::from_millis(p.start_delay_ms as u64));
+        let outp = dir.join(format!("p{}.json", i));
+        let _ = std::fs::remove_file(&outp);
+        let mut cmd = Command::new(std::env::current_exe().unwrap());
+        cmd.arg("worker").arg("proc").arg(&db).arg(i.to_string()).arg(p.hold_ms.to_string()).arg(&outp);
+        cmd.env("LD_PRELOAD", &shim).env("JV_SHIM_DB", &db).env("RUST_BACKTRACE", "0").env_remove("JV_SHIM_LOG");
+        cmd.stdout(Stdio::null()).stderr(Stdio::null());
+        let gd = if p.gate.is_empty() {
+            None
+        } else {
+            let g = dir.join(format!("gate{}", i));
+            let _ = std::fs::remove_dir_all(&g);
+            std::fs::create_dir_all(&g).map_err(|e| Failure::new("io", e.to_string()))?;
+            cmd.env("JV_SHIM_GATE", format!("{}:{}", p.gate, g.display()));
+            Some(g)
+        };
+        if i > 0 {
+            contended = true;
+        }
+        let ch = cmd.spawn().map_err(|e| Failure::new("harness_panic", format!("spawn: {}", e)))?;
+        children.push(Some(ch));
+        // wait until it reaches its gate, exits, or appears to be waiting (timeout)
+        let t0 = Instant::now();
+        loop {
+            if let Some(g) = &gd {
+                if g.join("reached").exists() {
+                    break;
+                }
+            }
+            if let Some(Some(c)) = children.last_mut() {
+                if let Ok(Some(_)) = c.try_wait() {
+                    break;
+                }
+            }
+            if t0.elapsed() > Duration::from_millis(if gd.is_some() { 150 } else { 30 }) {
+                break;
+            }
+            std::thread::sleep(Duration::from_micros(300));
+        }
+        gate_dirs.push(gd);
+        outs.push(outp);
+    }
+    // release the gates in the generated order, letting things settle in between
+    for &i in &case.release {
+        if let Some(Some(g)) = gate_dirs.get(i) {
+            let _ = std::fs::write(g.join("go"), b"");
+            std::thread::sleep(Duration::from_millis(3));
+        }
+    }
+    for g in gate_dirs.iter().flatten() {
+        let _ = std::fs::write(g.join("go"), b"");
+    }
+    // wait for everybody
+    let t0 = Instant::now();
+    let mut exit: Vec<Option<i32>> = vec![None; n];
+    loop {
+        let mut all = true;
+        for (i, c) in children.iter_mut().enumerate() {
+            if exit[i].is_some() {
+                continue;
+            }
+            if let Some(ch) = c {
+                match ch.try_wait() {
+                    Ok(Some(st)) => exit[i] = Some(st.code().unwrap_or(-1)),
+                    _ => all = false,
+                }
+            }
+        }
+        if all {
+            break;
+        }
+        if t0.elapsed() > Duration::from_secs(20) {
+            for c in children.iter_mut().flatten() {
+                let _ = c.kill();
+                let _ = c.wait();
+            }
+            break;
+        }
+        std::thread::sleep(Duration::from_micros(500));
+    }
+    let reports: Vec<Option<ProcReport>> = outs.iter().map(|o| std::fs::read_to_string(o).ok().and_then(|s| serde_json::from_str(&s).ok())).collect();
+    for g in gate_dirs.iter().flatten() {
+        let _ = std::fs::remove_dir_all(g);
+    }
+    let _ = std::fs::remove_file(&db);
+    Ok(Orchestration { reports, exit, contended })
+}
+
+pub fn judge(case: &C13Case, o: &Orchestration) -> Option<Failure> {
+    for (i, e) in o.exit.iter().enumerate() {
+        match e {
+            None => return Some(Failure::new("hang", format!("process {} did not finish within 20 s", i))),
+            Some(0) => {}
+            Some(c) => {
+                let err = o.reports[i].as_ref().and_then(|r| r.err.clone()).unwrap_or_else(|| format!("exit status {}", c));
+                return Some(Failure::new("open_failed", format!("process {} (gate '{}') failed instead of waiting: {}", i, case.procs[i].gate, err)));
+            }
+        }
+    }
+    let reps: Vec<&ProcReport> = o.reports.iter().flatten().collect();
+    if reps.len() != case.procs.len() {
+        return Some(Failure::new("harness_panic", "missing worker report".into()));
+    }
+    for a in &reps {
+        for b in &reps {
+            if a.id >= b.id {
+                continue;
+            }
+            let overlap = a.t_open < b.t_close && b.t_open < a.t_close;
+            if overlap {
+                return Some(Failure::new(
+                    "overlap",
+                    format!("processes {} and {} were inside the database at the same time: [{}, {}] and [{}, {}] (ns)", a.id, b.id, a.t_open, a.t_close, b.t_open, b.t_close),
+                ));
+            }
+        }
+    }
+    for a in &reps {
+        for b in &reps {
+            if a.id != b.id && b.t_close <= a.t_open && !a.seen.contains(&format!("p{}", b.id)) {
+                return Some(Failure::new(
+                    "lost_commit",
+                    format!("process {} opened the database after process {} had closed it but does not see its marker (sees {:?})", a.id, b.id, a.seen),
+                ));
+            }
+        }
+    }
+    None
+}
+
+pub fn gates(creator: bool) -> Vec<String> {
+    let mut g: Vec<String> = vec!["".into(), "open:1".into(), "openret:1".into(), "mmap:1".into(), "fsync:1".into(), "close:1".into(), "write:1".into()];
+    if creator {
+        g.push("write:2".into());
+        g.push("fsync:2".into());
+    }
+    g
+}
+
+fn shard(ctx: &ShardCtx, known: &Known) -> ShardOut {
+    let mut out = ShardOut::default();
+    let mut rng = Rng(ctx.shard_seed("c13"));
+    let mut cases: Vec<C13Case> = Vec::new();
+    // two processes: every gate pair x both release orders x file exists or not
+    let mut k = 0usize;
+    for exists in [false, true] {
+        for g0 in gates(!exists) {
+            for g1 in gates(false) {
+                for order in 0..2 {
+                    k += 1;
+                    if k % ctx.nshards != ctx.shard {
+                        continue;
+                    }
+                    if order == 1 && (g0.is_empty() || g1.is_empty()) {
+                        continue;
+                    }
+                    cases.push(C13Case {
+                        file_exists: exists,
+                        procs: vec![
+                            ProcSpec { gate: g0.clone(), hold_ms: rng.below(20) as u32, start_delay_ms: 0 },
+                            ProcSpec { gate: g1.clone(), hold_ms: rng.below(20) as u32, start_delay_ms: rng.below(5) as u32 },
+                        ],
+                        release: if order == 0 { vec![0, 1] } else { vec![1, 0] },
+                    });
+                }
+            }
+        }
+    }
+    // three processes and timing-only variations: sampled
+    let extra = ctx.tier.pick(40, 800);
+    for _ in 0..extra {
+        let exists = rng.chance(1, 2);
+        let n = 2 + rng.below(2) as usize;
+        let gs = gates(!exists);
+        let procs: Vec<ProcSpec> = (0..n)
+            .map(|i| ProcSpec {
+                gate: if rng.chance(1, 2) { String::new() } else { gs[rng.below(if i == 0 { gs.len() } else { 7 } as u64) as usize].clone() },
+                hold_ms: rng.below(25) as u32,
+                start_delay_ms: rng.below(40) as u32 * (i > 0) as u32,
+            })
+            .collect();
+        let mut release: Vec<usize> = (0..n).collect();
+        for i in (1..n).rev() {
+            release.swap(i, rng.below(i as u64 + 1) as usize);
+        }
+        cases.push(C13Case { file_exists: exists, procs, release });
+    }
+    for case in cases {
+        note_current(ctx, "c13", &case);
+        match run_case(&case, &ctx.scratch) {
+            Err(f) => {
+                record_case(ctx, &mut out, known, "c13", &case, CaseVerdict { failure: Some(f), nontrivial: false, classes: vec![] });
+            }
+            Ok(o) => {
+                let f = judge(&case, &o);
+                let mut classes = vec![if case.file_exists { "file exists".to_string() } else { "file not yet created".to_string() }, format!("{} processes", case.procs.len())];
+                if case.procs.iter().any(|p| !p.gate.is_empty()) {
+                    classes.push("forced ordering (gate)".into());
+                }
+                record_case(ctx, &mut out, known, "c13", &case, CaseVerdict { failure: f, nontrivial: o.contended, classes });
+            }
+        }
+        if out.failures.len() >= 4 {
+            break;
+        }
+    }
+    clear_current(ctx);
+    out
+}
+
+pub fn replay(fr: &FailRec, dir: &std::path::Path) -> Option<Failure> {
+    let case: C13Case = match serde_json::from_value(fr.case.clone()) {
+        Ok(c) => c,
+        Err(e) => return Some(Failure::new("harness_panic", format!("bad C13 case: {}", e))),
+    };
+    match run_case(&case, dir) {
+        Err(f) => Some(f),
+        Ok(o) => judge(&case, &o),
+    }
 }
